@@ -66,12 +66,13 @@ pub enum LogEv {
 pub struct Script {
     pub segs: VecDeque<Seg>,
     pub log: Arc<Mutex<Log>>,
+    pub write_fail_after: Option<usize>,
 }
 
 impl Script {
     pub fn new(segs: Vec<Seg>) -> (Script, Arc<Mutex<Log>>) {
         let log = Arc::new(Mutex::new(Log::default()));
-        (Script { segs: segs.into(), log: log.clone() }, log)
+        (Script { segs: segs.into(), log: log.clone(), write_fail_after: WRITE_FAIL_AFTER.with(|w| w.take()) }, log)
     }
 }
 
@@ -115,15 +116,30 @@ thread_local! {
     static WRITE_LIMIT: std::cell::Cell<usize> = const { std::cell::Cell::new(usize::MAX) };
 }
 
+thread_local! {
+    /// the next scripted connection of this thread fails its writes once it has taken that many bytes
+    static WRITE_FAIL_AFTER: std::cell::Cell<Option<usize>> = const { std::cell::Cell::new(None) };
+}
+
+pub fn set_write_fail_after(n: Option<usize>) {
+    WRITE_FAIL_AFTER.with(|w| w.set(n));
+}
+
 pub fn set_write_limit(n: usize) {
     WRITE_LIMIT.with(|w| w.set(n.max(1)));
 }
 
 impl Write for Script {
     fn write(&mut self, buf: &[u8]) -> io::Result<usize> {
-        let n = buf.len().min(WRITE_LIMIT.with(|w| w.get()));
-        let buf = &buf[..n];
+        let mut n = buf.len().min(WRITE_LIMIT.with(|w| w.get()));
         let mut log = self.log.lock().unwrap();
+        if let Some(cap) = self.write_fail_after {
+            if log.written.len() >= cap {
+                return Err(io::Error::new(io::ErrorKind::BrokenPipe, "scripted write failure"));
+            }
+            n = n.min(cap - log.written.len());
+        }
+        let buf = &buf[..n];
         log.written.extend_from_slice(buf);
         log.writes.push(buf.len());
         match log.events.last_mut() {
